@@ -259,3 +259,32 @@ def fit_args(dec, rew, ctx):
 
 def query(env, tag, m, d):
     return env.reals('q_%s' % tag, (m, d))
+
+
+def trained(env, lp, npol, N, A, d=1, labels='int', tag='', partial=0, n_jobs=1, hp=None, seed=None, binarizer=None,
+            data=None):
+    """a bandit trained through the public API on N symbolic rows (+ `partial` rows by partial_fit)"""
+    arms = list(LABELS[labels][:A])
+    ctxd = d if needs_contexts(lp, npol) else 0
+    if data is None:
+        dec, rew, ctx = gen_batch(env, 'h' + tag, arms, N + partial, reward_kind(lp), d=ctxd, fixed_n=N + partial)
+        dec = np.asarray(dec)
+    else:
+        dec, rew, ctx = data
+    mab, hp = new_mab(env, arms, lp, npol, tag=tag, n_jobs=n_jobs, hp=hp, seed=seed, binarizer=binarizer)
+    mab.fit(*((dec[:N], rew[:N]) + ((ctx[:N],) if ctxd else ())))
+    if partial:
+        mab.partial_fit(*((dec[N:], rew[N:]) + ((ctx[N:],) if ctxd else ())))
+    return mab, hp, (dec, rew, ctx), ctxd
+
+
+def ask(mab, what, q):
+    f = mab.predict if what == 'predict' else mab.predict_expectations
+    return f(q) if q is not None else f()
+
+
+def is_nan(x):
+    return isinstance(x, (float, np.floating)) and x != x
+
+
+NP_QUICK = ['radius:cityblock', 'knearest:2:cityblock', 'lsh:1:1', 'clusters:2', 'tree']
